@@ -37,6 +37,21 @@ def helpers_stages(ctx):
         ctx.notes.append("quick tier: %d of %d capability subsets (seeded sample + the extreme subsets of every group)" % (len(masks), len(kinds)))
 
 
+    links_stage(ctx)
+
+
+def links_stage(ctx):
+    """Links.tla: trees with symbolic links on hackpadfs os.FS; Stat / Lstat / LstatOrStat / Symlink and the other helpers
+    directly, under every subset of {Stat, Lstat, Symlink}, through the fallback Sub view and through mount.FS;
+    the reference leg is the os package itself"""
+    vh = ctx.build()
+    kinds = subprocess.run([vh, "link-kinds"], capture_output=True, text=True, env=ENV).stdout.split()
+    if not kinds:
+        raise Inconclusive("no link kinds")
+    cfg = "Links.quick.cfg" if ctx.tier == "quick" else "Links.thorough.cfg"
+    graph_stage(ctx, "links", "MC_Links.tla", cfg, "links", kinds, [], workers=8)
+
+
 CHECKS["C08"] = helpers_stages
 
 
